@@ -168,8 +168,24 @@ Definition ref_kind (ref_types : list string) (s : string) : string :=
 Definition is_local_variable (s : string) : bool := match_pat PLocalVariable s.
 Definition is_filter_ref (s : string) : bool := match_pat PFilterRef s.
 
+(* is the entity reference followed by an attribute path?  (len(truncate_schema_id(ref).split(".")) > 1:
+   for an import reference "schema:<id>.<type>:<id>..." the schema segment is dropped first) *)
+Definition ref_has_path (ref_types : list string) (s : string) : bool :=
+  match cut dot (list_ascii_of_string s) with
+  | (seg0, Some rest) =>
+      let '(seg1, after) := cut dot rest in
+      if is_gref_seg ref_types seg0 && is_gref_seg ref_types seg1 && String.eqb (seg_type seg0) "schema"
+      then match after with Some _ => true | None => false end
+      else true
+  | (_, None) => false
+  end.
+
+(* parties, object types, checkpoints and thread groups have no attributes to follow *)
+Definition pathless_kinds : list string := ["party"; "object_type"; "checkpoint"; "thread_group"].
+
 (* _validate_ref, structural part (resolution of the referenced object is semantic and not modelled) *)
 Definition ref_ok (ref_types kinds : list string) (s : string) : bool :=
   (mems "local_ref" kinds && is_local_variable s)
   || (mems "filter_ref" kinds && is_filter_ref s)
-  || (is_global_ref ref_types s && mems (ref_kind ref_types s) kinds).
+  || (is_global_ref ref_types s && mems (ref_kind ref_types s) kinds
+      && negb (mems (ref_kind ref_types s) pathless_kinds && ref_has_path ref_types s)).
